@@ -12,6 +12,12 @@ Claimed clauses:
  * commit_batch_update (sqlvc): a second commit of an already committed update writes nothing and answers rc = 0; the first
    read of batch_updates takes a row lock (lock discipline), so two overlapping commits are serialised.
  * _create_jobs: after ER_DUP_ENTRY (1062) on the jobs INSERT the function returns without any further statement (AST).
+ * front_end._create_batch.insert (pyvc): a repeated (token, user) returns the first request's batch id and writes nothing; a fresh
+   token inserts exactly one batches row (token, user, n_jobs = 0, complete) plus the root job group of that row and returns its
+   id; the lookup is keyed by exactly token and user, takes a lock and precedes every write; rejections write nothing.
+ * front_end._create_job_groups.insert (pyvc, loop contract): groups are created only when the update exists, is not committed and
+   the bunch's first absolute id is the successor of the batch's last group id read under a lock - a re-sent bunch writes nothing;
+   every group gets start + relative - 1 in this batch / update / transaction, one call per spec.
  * client/server id agreement: aioclient Job._submit / JobGroup._submit compute start + id - 1, the same expression the server
    uses for spec['job_id'] and the in-update job group id (pyvc + AST).
 """
@@ -23,7 +29,7 @@ import z3
 
 from contracts import sqlspec as SP
 from vc import core, pyvc, sqlast as A, sqlparse
-from vc.pyvc import Contract, Fork, SRecord
+from vc.pyvc import Contract, Fork, LoopSpec, SRecord
 
 FE = 'batch/batch/front_end/front_end.py'
 CL = 'hail/python/hailtop/batch_client/aioclient.py'
@@ -125,6 +131,169 @@ def update_contract():
     )
 
 
+# ---- _create_batch.insert: the batch-creation token ----------------------------------------------------------------------------
+
+def _conjuncts(e, out):
+    if isinstance(e, A.BinOp) and e.op == 'AND':
+        _conjuncts(e.left, out)
+        _conjuncts(e.right, out)
+    else:
+        out.append(e)
+    return out
+
+
+def create_batch_contract():
+    """front_end._create_batch.insert (the real nested coroutine, run inside one transaction): a request that repeats a token of
+    the same user is answered with the id of the batch created by the first request and writes NOTHING; a fresh token inserts
+    exactly one batches row carrying that token and user (born empty and complete: n_jobs = 0), creates exactly the root job
+    group of that new batch, and returns the id of the inserted row; every rejection happens before any write."""
+
+    def fetchone(eng, st, args, kw, node):
+        sql = _sql_of(node)
+        if 'FROM billing_project_users' in sql:
+            lim = z3.Int(pyvc.fresh_name('bp_limit'))
+            mk = lambda limit: SRecord('row', {'status': z3.Const('bp_status', pyvc.U), 'limit': limit})  # noqa: E731
+            raise Fork(node, [('no-such-billing-project-for-this-user', None, 'value', None, None), ('billing-project-without-limit', None, 'value', mk(None), None), ('billing-project-with-limit', None, 'value', mk(lim), None)])
+        if 'aggregated_billing_project_user_resources_v3' in sql:
+            return SRecord('row', {'cost': z3.Int(pyvc.fresh_name('accrued_cost'))})
+        if 'FROM batches' in sql:
+            stn = sqlparse.parse_statements(sql)[0]
+            conj = _conjuncts(stn.select.where, [])
+            got = [c.left.parts[-1] for c in conj if isinstance(c, A.BinOp) and c.op == '=' and isinstance(c.right, A.Param)]
+            passed = [pyast.unparse(x) for x in node.args[1].elts] if len(node.args) > 1 and isinstance(node.args[1], pyast.Tuple) else []
+            pairs = list(zip(got, passed)) if len(got) == len(passed) == sql.count('%s') == len(conj) else []
+            # exactly the key (token, user): a narrower key would miss the first request's row (a second batch is created), a
+            # wider one (token only) would hand one user's batch id to another user
+            eng.ctx.add(core.decided('%s/token-lookup-is-keyed-by-exactly-token-and-user' % eng.label, sorted(pairs) == [('token', 'token'), ('user', 'user')], 'where=%r args=%r' % (got, passed), kind='scan'))
+            eng.ctx.add(core.decided('%s/token-lookup-locks-the-row-or-gap' % eng.label, sql.rstrip(' ;').upper().endswith('FOR UPDATE'), sql, kind='scan'))
+            eng.oblige(st, 'token-lookup-precedes-every-write', st.env['n_writes'] == 0)
+            rec = SRecord('row', {'id': z3.Int('existing_batch_id')})
+            raise Fork(node, [('token-row-exists', None, 'value', rec, lambda s: s.env.__setitem__('token_hit', True)), ('no-token-row', None, 'value', None, lambda s: s.env.__setitem__('looked_up', True))])
+        raise core.Undecided('unrecognised query in _create_batch.insert: %s' % sql[:80])
+
+    def insertone(eng, st, args, kw, node):
+        sql = _sql_of(node)
+        stn = sqlparse.parse_statements(sql)[0]
+        if not isinstance(stn, A.Insert) or stn.table != 'batches' or stn.on_duplicate:
+            raise core.Undecided('unexpected write in _create_batch.insert: %s' % sql[:80])
+        vals = args[2] if len(args) > 2 else None
+        if not isinstance(vals, tuple) or len(vals) != len(stn.columns):
+            raise core.Undecided('INSERT arguments do not match the column list')
+        eng.oblige(st, 'a-batch-row-is-written-only-after-the-token-was-looked-up-and-not-found', st.env['looked_up'])
+        st.env['n_writes'] = st.env['n_writes'] + 1
+        st.env['n_batch_rows'] = st.env['n_batch_rows'] + 1
+        for k, v in zip(stn.columns, vals):
+            st.env['ins_' + k] = v
+        return z3.Int('new_batch_id')
+
+    def create_job_group(eng, st, args, kw, node):
+        eng.oblige(st, 'root-group-is-created-in-the-same-transaction', eng.equal(args[0], st.env['tx']) if args else z3.BoolVal(False))
+        eng.oblige(st, 'root-group-is-created-after-the-batch-row', st.env['n_batch_rows'] == 1)
+        st.env['n_writes'] = st.env['n_writes'] + 1
+        st.env['n_groups'] = st.env['n_groups'] + 1
+        for k in ('batch_id', 'job_group_id', 'update_id', 'user', 'parent_job_group_id', 'timestamp'):
+            if k not in kw:
+                raise core.Undecided('_create_job_group called without %s=' % k)
+            st.env['jg_' + k] = kw[k]
+        e = z3.Const(pyvc.fresh_name('jg_exc'), pyvc.U)
+        raise Fork(node, [('group-created', None, 'value', None, None), ('group-creation-fails', None, 'raise', pyvc.SExc(term=e), None)])
+
+    opaque = lambda name: (lambda eng, st, args, kw, node: z3.Const(pyvc.fresh_name(name), pyvc.U))  # noqa: E731
+    return Contract(
+        path=FE,
+        qualname='_create_batch.insert',
+        types={'tx': 'U'},
+        extra_inputs={'billing_project': 'U', 'user': 'U', 'token': 'U', 'attributes': 'U', 'batch_spec': 'U', 'userdata': 'U'},
+        ghost_init={'n_writes': '0', 'n_batch_rows': '0', 'n_groups': '0', 'token_hit': 'False', 'looked_up': 'False'},
+        consts={'ROOT_JOB_GROUP_ID': 0, 'BATCH_FORMAT_VERSION': z3.Int('BATCH_FORMAT_VERSION')},
+        calls={'.execute_and_fetchone': fetchone, '.execute_insertone': insertone, '_create_job_group': create_job_group, 'time_msecs': lambda eng, st, args, kw, node: z3.Int(pyvc.fresh_name('now')),
+               'json.dumps': lambda eng, st, args, kw, node: eng.uf('json_dumps', ['U'], 'U')(pyvc.to_z3(args[0], 'U')), 'batch_spec.get': lambda eng, st, args, kw, node: eng.uf('spec_get', ['U'], 'U')(pyvc.to_z3(args[0], 'U')), 'cost_str': opaque('cost_str')},
+        setup=lambda eng, st: st.env.update({'ins_' + k: z3.Const('noins_' + k, pyvc.U) for k in ('user', 'token', 'state', 'billing_project')}, ins_n_jobs=z3.Int('noins_n_jobs'), ins_time_created=z3.Int('noins_tc'), ins_time_completed=z3.Int('noins_tcc'),
+                                                  new_batch_id=z3.Int('new_batch_id'), existing_batch_id=z3.Int('existing_batch_id'), jg_batch_id=z3.Int('nojg_b'), jg_job_group_id=z3.Int('nojg_g'), jg_parent_job_group_id=z3.Int('nojg_p'), jg_user=z3.Const('nojg_u', pyvc.U), jg_update_id=z3.Const('nojg_upd', pyvc.U)),
+        raises={'HTTPForbidden': 'n_writes == 0', '*': 'n_groups == 1'},
+        ensures=[
+            ('retry-returns-the-batch-of-the-first-request', 'implies(token_hit, result == existing_batch_id)'),
+            ('retry-writes-nothing', 'implies(token_hit, n_writes == 0)'),
+            ('fresh-token-inserts-exactly-one-batch-and-its-root-group', 'implies(not token_hit, n_batch_rows == 1 and n_groups == 1 and n_writes == 2)'),
+            ('inserted-batch-carries-token-and-user', 'implies(not token_hit, ins_token == token and ins_user == user and ins_billing_project == billing_project)'),
+            ('a-batch-is-born-empty-and-complete', "implies(not token_hit, ins_n_jobs == 0 and ins_state == 'complete' and ins_time_completed == ins_time_created)"),
+            ('root-group-belongs-to-the-new-batch', 'implies(not token_hit, jg_batch_id == new_batch_id and jg_job_group_id == ROOT_JOB_GROUP_ID and jg_parent_job_group_id == ROOT_JOB_GROUP_ID and jg_user == user and jg_update_id is None)'),
+            ('returns-the-inserted-id', 'implies(not token_hit, result == new_batch_id)'),
+        ],
+        canaries=[('always-a-retry', 'token_hit'), ('never-a-retry', 'not token_hit')],
+    )
+
+
+# ---- _create_job_groups.insert: the ordering check ------------------------------------------------------------------------------
+
+JG_SPEC_T = pyvc.rec_type(job_group_id='int', has_absolute_parent_id='bool', absolute_parent_id='int', has_in_update_parent_id='bool', in_update_parent_id='int')
+
+
+def create_job_groups_contract():
+    """front_end._create_job_groups.insert (real nested coroutine, one transaction): nothing is written unless the update exists,
+    is not committed, and the first group of the bunch is exactly the successor of the last group the batch already has (read
+    under a lock).  A re-sent bunch therefore writes nothing: after the first delivery the batch's last group id is at least
+    the bunch's first id.  Every group of an accepted bunch is created once, in order, under the absolute id
+    start_job_group_id + relative id - 1 of this batch and update, in this transaction."""
+
+    def fetchone(eng, st, args, kw, node):
+        sql = _sql_of(node)
+        if 'FROM batch_updates' in sql:
+            stn = sqlparse.parse_statements(sql)[0]
+            conj = _conjuncts(stn.select.where, [])
+            got = [c.left.parts[-1] for c in conj if isinstance(c, A.BinOp) and c.op == '=' and isinstance(c.right, A.Param)]
+            passed = [pyast.unparse(x) for x in node.args[1].elts] if len(node.args) > 1 and isinstance(node.args[1], pyast.Tuple) else []
+            pairs = list(zip(got, passed)) if len(got) == len(passed) == sql.count('%s') else []
+            eng.ctx.add(core.decided('%s/update-lookup-is-keyed-by-this-batch-and-update' % eng.label, ('batch_id', 'batch_id') in pairs and ('update_id', 'update_id') in pairs, 'where=%r args=%r' % (got, passed), kind='scan'))
+            cols = _select_cols(sql)
+            eng.ctx.add(core.decided('%s/update-lookup-reads-committed-and-the-start-of-the-reserved-range' % eng.label, 'committed' in cols and 'start_job_group_id' in cols, repr(cols), kind='scan'))
+            rec = SRecord('row', {'state': z3.Const('upd_state', pyvc.U), 'format_version': z3.Int('upd_fv'), 'committed': z3.Bool('upd_committed'), 'start_job_group_id': z3.Int('start_jg')})
+            raise Fork(node, [('update-found', None, 'value', rec, None), ('update-missing', None, 'value', None, None)])
+        if 'FROM job_groups' in sql:
+            flat = ' '.join(sql.upper().split())
+            ok = 'WHERE BATCH_ID = %S' in flat and 'ORDER BY JOB_GROUP_ID DESC' in flat and 'LIMIT 1' in flat and flat.rstrip(' ;').endswith('FOR UPDATE') and pyast.unparse(node.args[1]) == '(batch_id,)'
+            eng.ctx.add(core.decided('%s/last-group-lookup-is-the-highest-group-of-this-batch-read-under-a-lock' % eng.label, ok, sql, kind='scan'))
+            eng.oblige(st, 'last-group-lookup-precedes-every-write', st.env['n_groups'] == 0)
+            st.env['looked_up_last'] = True
+            return SRecord('row', {'job_group_id': z3.Int('last_jg')})  # every batch has its root group (created with the batch)
+        raise core.Undecided('unrecognised query in _create_job_groups.insert: %s' % sql[:80])
+
+    def create_job_group(eng, st, args, kw, node):
+        for k in ('batch_id', 'job_group_id', 'update_id', 'user', 'parent_job_group_id'):
+            if k not in kw:
+                raise core.Undecided('_create_job_group called without %s=' % k)
+        spec = st.env['spec']
+        first = pyvc.from_z3(z3.Select(st.env['job_group_specs'].arr, 0), JG_SPEC_T)
+        eng.oblige(st, 'groups-are-created-only-after-the-ordering-check-passed', z3.And(st.env['looked_up_last'], z3.Int('start_jg') + first.fields['job_group_id'] - 1 == z3.Int('last_jg') + 1, z3.Not(z3.Bool('upd_committed'))))
+        eng.oblige(st, 'group-gets-the-absolute-id-start-plus-relative-minus-one', pyvc.to_z3(kw['job_group_id'], 'int') == z3.Int('start_jg') + spec.fields['job_group_id'] - 1)
+        eng.oblige(st, 'group-is-created-in-this-batch-update-and-transaction', z3.And(eng.equal(kw['batch_id'], st.env['batch_id']), eng.equal(kw['update_id'], st.env['update_id']), eng.equal(kw['user'], st.env['user']), eng.equal(args[0], st.env['tx']) if args else z3.BoolVal(False)))
+        eng.oblige(st, 'parent-is-the-absolute-id-given-or-computed-from-the-relative-one', pyvc.to_z3(kw['parent_job_group_id'], 'int') == z3.If(spec.fields['has_absolute_parent_id'], spec.fields['absolute_parent_id'], z3.Int('start_jg') + spec.fields['in_update_parent_id'] - 1))
+        st.env['n_groups'] = st.env['n_groups'] + 1
+        e = z3.Const(pyvc.fresh_name('jg_exc'), pyvc.U)
+        raise Fork(node, [('group-created', None, 'value', None, None), ('group-creation-fails', None, 'raise', pyvc.SExc(term=e), None)])
+
+    opaque = lambda name: (lambda eng, st, args, kw, node: z3.Const(pyvc.fresh_name(name), pyvc.U))  # noqa: E731
+    return Contract(
+        path=FE,
+        qualname='_create_job_groups.insert',
+        types={'tx': 'U', 'job_group_specs': ('list', JG_SPEC_T), 'spec': JG_SPEC_T},
+        extra_inputs={'batch_id': 'int', 'update_id': 'int', 'user': 'U', 'job_group_specs': ('list', JG_SPEC_T)},
+        requires=['len(job_group_specs) > 0'],
+        ghost_init={'n_groups': '0', 'looked_up_last': 'False'},
+        calls={'.execute_and_fetchone': fetchone, '_create_job_group': create_job_group, 'time_msecs': lambda eng, st, args, kw, node: z3.Int(pyvc.fresh_name('now')), 'spec.get': opaque('spec_get'),
+               'log.info': lambda eng, st, args, kw, node: None},
+        loops={0: LoopSpec(index='gi', invariants=[('one-group-per-spec-so-far', 'n_groups == gi')], modifies=['n_groups', 'job_group_id', 'parent_job_group_id'])},
+        raises={'HTTPNotFound': 'n_groups == 0', 'HTTPBadRequest': True, 'AssertionError': True, 'CancelledError': True, '*': True},
+        on_raise=[('a-bunch-that-does-not-continue-the-last-group-writes-nothing', 'implies(not looked_up_last or start_jg + job_group_specs[0][\'job_group_id\'] - 1 != last_jg + 1 or upd_committed, n_groups == 0)')],
+        setup=lambda eng, st: st.env.update(start_jg=z3.Int('start_jg'), last_jg=z3.Int('last_jg'), upd_committed=z3.Bool('upd_committed')),
+        ensures=[
+            ('every-group-of-the-bunch-is-created-once', 'n_groups == len(job_group_specs)'),
+            ('accepted-only-as-the-successor-of-the-last-group', "looked_up_last and start_jg + job_group_specs[0]['job_group_id'] - 1 == last_jg + 1 and not upd_committed"),
+        ],
+        canaries=[('never-accepts', 'False')],
+    )
+
+
 def client_contracts():
     job = Contract(
         path=CL,
@@ -151,6 +320,12 @@ def client_contracts():
 def build(ctx):
     eng = pyvc.Engine(ctx, update_contract())
     eng.run()
+    eb = pyvc.Engine(ctx, create_batch_contract())
+    eb.run()
+    eg = pyvc.Engine(ctx, create_job_groups_contract())
+    eg.run()
+    ctx.add(core.decided('_create_job_groups.insert/no-call-outside-the-contract', not [u for u in eg.unmodelled if not u.startswith('log.')], repr(eg.unmodelled), kind='frame'))
+    ctx.add(core.decided('_create_batch.insert/no-call-outside-the-contract', not [u for u in eb.unmodelled if not u.startswith('log.')], repr(eb.unmodelled), kind='frame'))
     for c in client_contracts():
         pyvc.Engine(ctx, c).run()
     # server side id computation uses the same formula (AST obligations on _create_jobs / _create_job_groups)
@@ -207,4 +382,5 @@ def build(ctx):
     SP.engine_obligations(ctx, ex)
     ctx.assume('tx.execute_and_fetchone returns None or one row of the query (the three queries of _create_batch_update are recognised by their text; any other query makes the check undecided); SELECT ... FOR UPDATE serialises concurrent update creation (assumed)')
     ctx.assume('the induction from "each new update continues the last one" to "ranges are contiguous, disjoint and in update order" is a paper argument over the batch_updates rows')
-    ctx.undecided('_create_batch token short-circuit and _create_job_groups ordering check (not yet under contract); HTTP-level retries; two clients racing on the same batch')
+    ctx.assume('every batch has its root job group (created by _create_batch.insert in the transaction that inserts the batch row: contract above), so the last-group lookup of _create_job_groups.insert finds a row')
+    ctx.undecided('HTTP-level retries; two clients racing on the same batch beyond the row / gap locks taken by the lookups (FOR UPDATE is checked, its MySQL semantics assumed); that the relative ids inside one job-group bunch are consecutive (only the first is compared with the last existing group; a repeated id ends in a duplicate-key error that rolls the transaction back)')
